@@ -1,24 +1,29 @@
 #!/bin/bash
-# Runs every claimed check against every seeded change, applied in a scratch worktree of /repo HEAD (so /repo and
-# /verif/evidence are left alone), and records which checks/rules report a violation in /verif/seeded/SWEEP.tsv.
+# Runs every check against every seeded change, applied in a scratch worktree of /repo HEAD (so /repo and
+# /verif/evidence are left alone), and records which properties/rules report a violation in /verif/seeded/SWEEP.tsv.
 set -u
 WT=$(mktemp -d /tmp/sweep-wt-XXXX); SV=$(mktemp -d /tmp/sweep-verif-XXXX)
 git -C /repo worktree add -q --detach "$WT" HEAD || exit 2
 trap 'git -C /repo worktree remove --force "$WT" >/dev/null 2>&1; rm -rf "$WT" "$SV"' EXIT
-cp /verif/known_findings.json "$SV/"; mkdir -p "$SV/evidence"
-PROPS=$(python3 -c "import json;print(' '.join(c['property_id'] for c in json.load(open('/verif/MANIFEST.json'))['checks']))")
+cp /verif/known_findings.json "$SV/"; mkdir -p "$SV/evidence"; cp /verif/bin/lvcheck "$SV/lvcheck"
 OUT=/verif/seeded/SWEEP.tsv.new; : > $OUT
+base=$("$SV/lvcheck" -prop all -repo "$WT" -verif "$SV" 2>&1 | grep -c "^VIOLATION")
+echo "# unchanged tree: $base violation lines (must be 0)" >> $OUT
 for d in /verif/seeded/C*-m*; do
   id=$(basename $d)
   if ! git -C "$WT" apply "$d/patch.diff" 2>/dev/null; then echo -e "$id\tPATCH-DOES-NOT-APPLY" >> $OUT; git -C "$WT" checkout -q -- .; continue; fi
-  det=""
-  for p in $PROPS; do
-    out=$(/verif/bin/lvcheck -prop $p -repo "$WT" -verif "$SV" 2>&1)
-    if echo "$out" | grep -q "^VIOLATION"; then
-      rules=$(echo "$out" | grep -oE "^[^ ]+ \[[A-Z]+\]" | grep -oE "\[[A-Z]+\]" | sort -u | tr -d '[]' | paste -sd, )
-      det="$det $p:$rules"
-    fi
-  done
+  out=$("$SV/lvcheck" -prop all -repo "$WT" -verif "$SV" 2>&1)
+  det=$(echo "$out" | python3 -c '
+import sys,re
+rules=set(); res={}
+for l in sys.stdin:
+    m=re.match(r"^\S* \[([A-Z]+)\]",l)
+    if m: rules.add(m.group(1)); continue
+    m=re.match(r"^VIOLATION property=(\S+)",l)
+    if m:
+        res.setdefault(m.group(1),set()).update(rules); rules=set()
+print(" ".join(p+":"+",".join(sorted(r)) for p,r in sorted(res.items())))
+')
   git -C "$WT" checkout -q -- .
   echo -e "$id\t${det:- -}" >> $OUT
 done
